@@ -5,6 +5,28 @@ mod gen;
 mod proj;
 mod ops;
 mod ops_date;
+mod ops_round;
+mod ops_time;
+mod ops_dur;
+mod ops_dt;
+mod ops_zoned;
+mod ops_opts;
+mod ops_limits;
+mod ops_cal;
+mod ops_tzdb;
+mod ops_lock;
+mod ops_fmt;
+mod ops_parse;
+mod ops_wrap;
+mod ops_partial;
+mod ops_ym;
+mod sp_c12;
+mod sp_c15;
+mod sp_c16;
+mod sp_c19;
+mod sp_c20;
+mod sp_c03;
+mod sp_c10;
 mod replay;
 mod c01;
 mod rec;
@@ -17,6 +39,13 @@ fn main() {
         "replay" => replay::main(&a[2..]),
         "record" => rec::main(&a[2..]),
         "c01" => c01::main(&a[2..]),
+        "c12" => sp_c12::main(&a[2..]),
+        "c15" => sp_c15::main(&a[2..]),
+        "c16" => sp_c16::main(&a[2..]),
+        "c19" => sp_c19::main(&a[2..]),
+        "c20" => sp_c20::main(&a[2..]),
+        "c03" => sp_c03::main(&a[2..]),
+        "c10" => sp_c10::main(&a[2..]),
         "exec" => {
             // exec one case from a replay file: tvh exec '<json line>'
             let v: serde_json::Value = serde_json::from_str(&a[2]).expect("json");
